@@ -396,6 +396,50 @@ func Stacked(j *job.Job, s *job.Sink) {
 			}
 		}
 	}
+	// short writes below two stacked writers: the bottom writer takes a given number of bytes
+	// and fails; what the top writer reports is the number of its caller's bytes among them
+	// (the prefixes of both levels are not the caller's), and the bottom holds exactly the
+	// first bytes of the doubly indented text
+	if j.Shard == 1%j.Shards {
+		for _, p1 := range []string{"--", ">", "ab"} {
+			for _, p2 := range []string{">", "..", "a"} {
+				for _, first := range []string{"", "x", "x\n"} {
+					for _, text := range []string{"aaa\na", "a\nb\nc", "\n\n", "ab\ncd\n", "a", "\na\n\nb", "l1\nl2\nl3\nl4\nl5\nl6\nl7\nl8\nl9\nl10\nl11\nl12\nl13\nl14\nl15\nl16\nl17"} {
+						inner, im := Ref(p2, first+text)
+						outer, om := Ref(p1, inner)
+						// bytes of the first write are not this call's
+						skipInner, _ := Ref(p2, first)
+						skipOuter, _ := Ref(p1, skipInner)
+						for budget := len(skipOuter); budget <= len(outer); budget++ {
+							idx++
+							s.Count("stacked_short_write_cases", 1)
+							u := &limited{budget: budget}
+							top := indent.NewWriter(indent.NewWriter(u, p1), p2)
+							if first != "" {
+								top.Write([]byte(first))
+							}
+							n, err := top.Write([]byte(text))
+							want := 0
+							for k := 0; k < budget && k < len(outer); k++ {
+								if om[k] >= 0 && im[om[k]] >= len(first) {
+									want++
+								}
+							}
+							desc := map[string]any{"outer_prefix": p1, "inner_prefix": p2, "first": first, "text": text, "budget": budget}
+							switch {
+							case budget >= len(outer) && (err != nil || n != len(text)):
+								s.Violation(idx, j.CaseID(idx), "C20.stacked", "stacked-short-count", fmt.Sprintf("prefixes %q/%q after %q: Write(%q) with room for everything returned %d, %v", p1, p2, first, text, n, err), desc, nil)
+							case budget < len(outer) && (err == nil || n != want):
+								s.Violation(idx, j.CaseID(idx), "C20.stacked", "stacked-short-count", fmt.Sprintf("prefixes %q/%q after %q: Write(%q) returned %d, %v when the bottom writer stopped after %d bytes (%q): %d of the caller's bytes are among them", p1, p2, first, text, n, err, budget, u.got, want), desc, nil)
+							case string(u.got) != outer[:min(budget, len(outer))]:
+								s.Violation(idx, j.CaseID(idx), "C20.stacked", "stacked-content", fmt.Sprintf("prefixes %q/%q after %q: the bottom writer holds %q, the doubly indented text begins %q", p1, p2, first, u.got, outer[:min(budget, len(outer))]), desc, nil)
+							}
+						}
+					}
+				}
+			}
+		}
+	}
 	// an underlying writer that breaks the io.Writer contract (negative or excessive count
 	// with its error): whatever it says, the count handed to the caller stays within
 	// [0, len(buf)]
